@@ -12,6 +12,8 @@ package main
 //	    be requested a second time only after a 429 / 503 / time-out answer, never a third time;
 //	R5  an event that serializes to ≤ 1 MB is first requested at most 1.25 × BatchTimeout after it was handed
 //	    in (it is the first event of its batch or younger than it), and at the latest when Stop() returns;
+//	    time during which an earlier request to the SAME destination sits in its Retry-After back-off is not
+//	    counted (see backoff());
 //	R6  once every event has an outcome (nothing on the wire, nobody in a retry sleep, every sendable event's
 //	    batch answered, every oversize event's dispatch deadline passed or Stop() returned) the queued-items
 //	    gauge is 0 and at least one error was counted per oversize event.
@@ -48,7 +50,16 @@ func (w *world) checkRequest(q *request) {
 		w.failf("batch-exceeds-MaxBatchSize", "%v holds %d events, MaxBatchSize is %d", q, n, w.m)
 	}
 	if q.BodyLen > maxBodySize {
-		w.failf("body-exceeds-5MB", "%v: uncompressed body is %d bytes", q, q.BodyLen)
+		w.failf("body-exceeds-5MB", "%v: uncompressed body is %d bytes (%d on the wire)", q, q.BodyLen, q.RawLen)
+	}
+	switch {
+	case n == w.m:
+		w.note("d_requests_with_exactly_MaxBatchSize_events", 1)
+	case n < w.m:
+		w.note("d_requests_with_fewer_than_MaxBatchSize_events", 1)
+	}
+	if q.BodyLen > 4_000_000 {
+		w.note(fmt.Sprintf("c_requests_with_body_over_4MB:bytes=%d", q.BodyLen), 1)
 	}
 	seen := map[string]bool{}
 	for _, we := range q.Events {
@@ -78,7 +89,7 @@ func (w *world) checkRequest(q *request) {
 		if we.WireSize > maxEventSize {
 			w.failf("oversize-event-sent", "%v: member %s occupies %d bytes (> 1 MB) and was sent instead of dropped", q, we.ID, we.WireSize)
 		}
-		if memberOverhead > 0 && s.Size >= 0 && we.WireSize != s.Size && we.Problem == "" && we.PadLen == s.PadLen {
+		if calibrated && s.Size >= 0 && we.WireSize != s.Size && we.Problem == "" && we.PadLen == s.PadLen {
 			ev.Harness("size model is off: %s serialized to %d bytes, harness expected %d", we.ID, we.WireSize, s.Size)
 		}
 	}
@@ -97,20 +108,84 @@ func (w *world) checkRequest(q *request) {
 			w.failf("more-than-two-attempts", "%v is attempt %d of this batch (answers so far: %v)", q, len(b.Attempts)+1, b.answers())
 		}
 		b.Attempts = append(b.Attempts, nil)
+		b.ReqAt = append(b.ReqAt, w.now())
 		return
 	}
-	b := &batch{IDs: q.ids(), key: key, Dest: w.events[q.Events[0].ID].Dest.Name, Attempts: []*answer{nil}, First: w.now()}
+	b := &batch{IDs: q.ids(), key: key, Dest: w.events[q.Events[0].ID].Dest.Name, Attempts: []*answer{nil}, First: w.now(), ReqAt: []time.Duration{w.now()}, AtStop: w.stopping}
 	for _, id := range b.IDs {
 		if o := w.inBatch[id]; o != nil {
 			w.failf("event-in-two-batches", "%s was sent in batch %v and again in the different batch %v (%v)", id, o.IDs, b.IDs, q)
 		}
 		w.inBatch[id] = b
-		if age := w.now() - w.events[id].Enq; age > dispatchDeadline {
-			w.failf("late-dispatch", "%s was enqueued at %v and first requested at %v: %v later, limit 1.25 x BatchTimeout = %v", id, w.events[id].Enq, w.now(), age, dispatchDeadline)
+		s := w.events[id]
+		raw := w.now() - s.Enq
+		if age := raw - w.backoff(s.Dest.Name, s.Enq, w.now()); age > dispatchDeadline {
+			w.failf("late-dispatch"+sizeClass(s), "%s was enqueued at %v and first requested at %v: %v later (%v of it behind a Retry-After back-off of the same destination), limit 1.25 x BatchTimeout = %v",
+				id, s.Enq, w.now(), raw, raw-age, dispatchDeadline)
+		}
+		if w.stopping {
+			w.note("g_events_first_requested_during_Stop", 1)
 		}
 	}
 	w.batches[key] = b
 	w.blist = append(w.blist, b)
+}
+
+// sizeClass refines a signature for events of explicit size (the 1 MB boundary classes), so that "a small event is
+// late" and "an event of exactly 1 MB never leaves" are different signatures.
+func sizeClass(s *sentEvent) string {
+	switch {
+	case s.Size < 0:
+		return ""
+	case s.Size == maxEventSize:
+		return ":event-of-exactly-1MB"
+	case s.Size < maxEventSize:
+		return ":event-just-under-1MB"
+	}
+	return ":event-over-1MB"
+}
+
+// backoff returns how much of [from, to] some batch of destination d spent between a 429/503 answer to its first
+// attempt and its second attempt (or until now, while somebody still sleeps on the clock). The transmission sends
+// the requests of one oversized internal batch one after the other, so a request that waits out a Retry-After
+// delays the remaining events of the same destination; the statement's 1.25 x BatchTimeout speaks about
+// dispatching, not about the server's back-pressure, hence that time is not held against those events.
+func (w *world) backoff(d string, from, to time.Duration) time.Duration {
+	type iv struct{ a, b time.Duration }
+	var ivs []iv
+	for _, b := range w.blist {
+		if b.Dest != d || len(b.AnsAt) == 0 || b.Attempts[0] == nil || (b.Attempts[0].Kind != "429" && b.Attempts[0].Kind != "503") {
+			continue
+		}
+		x := iv{b.AnsAt[0], b.AnsAt[0]}
+		if len(b.ReqAt) > 1 {
+			x.b = b.ReqAt[1]
+		} else if w.clk.sleepers() > 0 {
+			x.b = w.now()
+		}
+		if x.a < from {
+			x.a = from
+		}
+		if x.b > to {
+			x.b = to
+		}
+		if x.b > x.a {
+			ivs = append(ivs, x)
+		}
+	}
+	sort.Slice(ivs, func(i, j int) bool { return ivs[i].a < ivs[j].a })
+	var sum, end time.Duration
+	end = -1
+	for _, x := range ivs {
+		if x.a < end {
+			x.a = end
+		}
+		if x.b > x.a {
+			sum += x.b - x.a
+			end = x.b
+		}
+	}
+	return sum
 }
 
 func (b *batch) answers() []string {
@@ -135,6 +210,7 @@ func (w *world) noteAnswer(q *request, a answer) {
 			if b.Attempts[i] == nil {
 				x := a
 				b.Attempts[i] = &x
+				b.AnsAt = append(b.AnsAt, w.now())
 				break
 			}
 		}
@@ -186,23 +262,84 @@ func (w *world) checkQuiescent() {
 		}
 		if b == nil {
 			all = false
-			if now-s.Enq >= dispatchDeadline {
-				w.failf("not-dispatched-by-deadline", "%s (-> %s) was enqueued at %v; at %v (%v later, limit 1.25 x BatchTimeout = %v) it has still not been put in any request",
-					id, s.Dest.Name, s.Enq, now, now-s.Enq, dispatchDeadline)
-			}
 			if stopped {
-				w.failf("pending-not-sent-at-stop", "Stop() returned but %s (-> %s, enqueued at %v) was never put in any request", id, s.Dest.Name, s.Enq)
+				w.failf("pending-not-sent-at-stop"+sizeClass(s), "Stop() returned but %s (-> %s, enqueued at %v) was never put in any request", id, s.Dest.Name, s.Enq)
+			}
+			if bo := w.backoff(s.Dest.Name, s.Enq, now); now-s.Enq-bo >= dispatchDeadline {
+				w.failf("not-dispatched-by-deadline"+sizeClass(s), "%s (-> %s) was enqueued at %v; at %v (%v later, %v of it behind a Retry-After back-off of the same destination; limit 1.25 x BatchTimeout = %v) it has still not been put in any request",
+					id, s.Dest.Name, s.Enq, now, now-s.Enq, bo, dispatchDeadline)
 			}
 		} else if b.Attempts[len(b.Attempts)-1] == nil {
 			all = false
 		}
 	}
 	if all {
+		if len(w.order) > 0 {
+			w.note("h_quiescent_instants_with_every_outcome_known_gauge_checked", 1)
+		}
 		if g := w.gauge(); g != 0 {
 			w.failf("gauge-nonzero-after-all-outcomes", "every one of the %d events has an outcome (%d oversize) but %s_queued_items = %d", len(w.order), big, metricPrefix, g)
 		}
 		if e := w.errorCount(); e < int64(big) {
 			w.failf("oversize-drop-not-counted", "%d oversize events were dropped but only %d errors were counted", big, e)
+		}
+		if big > 0 {
+			w.note("b_quiescent_instants_with_oversize_drop_error_count_checked", 1)
+		}
+	}
+	w.allAtEnd = all
+}
+
+// finalCensus records, for an execution that passed, which side of every clause it exercised (evidence against
+// vacuity; never part of a verdict).
+func (w *world) finalCensus() {
+	perDest := map[string]int{}
+	bytesPerDest := map[string]int{}
+	for _, id := range w.order {
+		s := w.events[id]
+		perDest[s.Dest.Name]++
+		b := w.inBatch[id]
+		switch {
+		case s.Big:
+			w.note("b_oversize_events_handed_in", 1)
+		case b != nil && s.Size == maxEventSize:
+			w.note("b_events_of_exactly_1MB_delivered", 1)
+		case b != nil && s.Size > 0:
+			w.note("b_events_just_under_1MB_delivered", 1)
+		}
+		if b != nil && s.Size > 0 {
+			bytesPerDest[s.Dest.Name] += s.Size
+		}
+	}
+	w.note(fmt.Sprintf("a_executions_with_%d_destinations", len(perDest)), 1)
+	for _, n := range perDest {
+		if n > w.m {
+			w.note("d_executions_with_more_than_MaxBatchSize_events_for_one_destination", 1)
+			break
+		}
+	}
+	for _, n := range bytesPerDest {
+		if n > maxBodySize {
+			w.note("c_executions_where_one_destination_got_over_5MB_in_several_requests", 1)
+			break
+		}
+	}
+	for _, b := range w.blist {
+		w.note("a_batches_for_destination_"+b.Dest, 1)
+		first := w.events[b.IDs[0]].Enq
+		for _, id := range b.IDs {
+			if e := w.events[id].Enq; e < first {
+				first = e
+			}
+		}
+		w.note(fmt.Sprintf("e_batches_first_requested_%d/8_BatchTimeout_after_their_first_event", int((b.First-first)/halfTick)), 1)
+		ans := b.answers()
+		w.note(fmt.Sprintf("f_batches_answered_%s_then_attempted_%dx", ans[0], len(ans)), 1)
+		if len(ans) == 2 {
+			w.note(fmt.Sprintf("f_second_attempts_after_%s_answered_%s", strings.SplitN(ans[0], "[", 2)[0], strings.SplitN(ans[1], "[", 2)[0]), 1)
+		}
+		if w.allAtEnd {
+			w.note("h_gauge_zero_confirmed_after_final_answer_"+strings.SplitN(ans[len(ans)-1], "[", 2)[0], 1)
 		}
 	}
 }
